@@ -704,6 +704,103 @@ impl Gen for SkipVar {
     }
 }
 
+/// explicit discriminants that do not ascend in declaration order (serde numbers variants by position)
+#[derive(Serialize, Deserialize, Schema, MaxSize, Debug, Clone, Copy, PartialEq)]
+pub enum DiscDesc {
+    Halt = 0xff,
+    Nop = 0,
+    Mid = 7,
+    Low = 1,
+}
+#[derive(Serialize, Deserialize, Schema, MaxSize, Debug, Clone, PartialEq)]
+#[repr(u8)]
+pub enum DiscData {
+    A(u8) = 9,
+    B { x: u16 } = 2,
+    C = 5,
+    D(i64, bool) = 0,
+}
+/// struct variants that reuse a field name at different types
+#[derive(Serialize, Deserialize, Schema, MaxSize, Debug, Clone, PartialEq)]
+pub enum SharedNames {
+    A { value: u8, id: u16 },
+    B { value: u64, id: u16 },
+    C { value: (u8, bool) },
+    D { id: i8, value: Option<u32> },
+}
+/// tuple struct / tuple variant wider than the widest plain tuple (6)
+#[derive(Serialize, Deserialize, Schema, MaxSize, Debug, Clone, PartialEq)]
+pub struct Wide8(pub u8, pub u16, pub bool, pub i32, pub u8, pub u8, pub i64, pub u16);
+#[derive(Serialize, Deserialize, Schema, MaxSize, Debug, Clone, PartialEq)]
+pub enum WideVar {
+    Small(u8),
+    Big(u8, u16, u32, u64, i8, i16, i32, i64, bool),
+    Same(u8, u8, u8, u8, u8, u8, u8, u16),
+}
+impl Gen for DiscDesc {
+    fn gen(s: &mut Src) -> Self {
+        [DiscDesc::Halt, DiscDesc::Nop, DiscDesc::Mid, DiscDesc::Low][s.below(4) as usize]
+    }
+    fn extremes() -> Vec<Self> {
+        vec![DiscDesc::Halt, DiscDesc::Nop, DiscDesc::Mid, DiscDesc::Low]
+    }
+}
+impl Gen for DiscData {
+    fn gen(s: &mut Src) -> Self {
+        match s.below(4) {
+            0 => DiscData::A(Gen::gen(s)),
+            1 => DiscData::B { x: Gen::gen(s) },
+            2 => DiscData::C,
+            _ => DiscData::D(Gen::gen(s), Gen::gen(s)),
+        }
+    }
+    fn extremes() -> Vec<Self> {
+        vec![DiscData::A(255), DiscData::B { x: u16::MAX }, DiscData::C, DiscData::D(i64::MIN, true)]
+    }
+}
+impl Gen for SharedNames {
+    fn gen(s: &mut Src) -> Self {
+        match s.below(4) {
+            0 => SharedNames::A { value: Gen::gen(s), id: Gen::gen(s) },
+            1 => SharedNames::B { value: Gen::gen(s), id: Gen::gen(s) },
+            2 => SharedNames::C { value: Gen::gen(s) },
+            _ => SharedNames::D { id: Gen::gen(s), value: Gen::gen(s) },
+        }
+    }
+    fn extremes() -> Vec<Self> {
+        vec![
+            SharedNames::A { value: 255, id: u16::MAX },
+            SharedNames::B { value: u64::MAX, id: u16::MAX },
+            SharedNames::C { value: (255, true) },
+            SharedNames::D { id: i8::MIN, value: Some(u32::MAX) },
+        ]
+    }
+}
+impl Gen for Wide8 {
+    fn gen(s: &mut Src) -> Self {
+        Wide8(Gen::gen(s), Gen::gen(s), Gen::gen(s), Gen::gen(s), Gen::gen(s), Gen::gen(s), Gen::gen(s), Gen::gen(s))
+    }
+    fn extremes() -> Vec<Self> {
+        vec![Wide8(255, u16::MAX, true, i32::MIN, 255, 255, i64::MIN, u16::MAX)]
+    }
+}
+impl Gen for WideVar {
+    fn gen(s: &mut Src) -> Self {
+        match s.below(3) {
+            0 => WideVar::Small(Gen::gen(s)),
+            1 => WideVar::Big(Gen::gen(s), Gen::gen(s), Gen::gen(s), Gen::gen(s), Gen::gen(s), Gen::gen(s), Gen::gen(s), Gen::gen(s), Gen::gen(s)),
+            _ => WideVar::Same(Gen::gen(s), Gen::gen(s), Gen::gen(s), Gen::gen(s), Gen::gen(s), Gen::gen(s), Gen::gen(s), Gen::gen(s)),
+        }
+    }
+    fn extremes() -> Vec<Self> {
+        vec![
+            WideVar::Small(255),
+            WideVar::Big(255, u16::MAX, u32::MAX, u64::MAX, i8::MIN, i16::MIN, i32::MIN, i64::MIN, true),
+            WideVar::Same(255, 255, 255, 255, 255, 255, 255, u16::MAX),
+        ]
+    }
+}
+
 macro_rules! big_enum {
     ($name:ident, $n:expr, [$($v:ident),*]) => {
         #[derive(Serialize, Deserialize, Schema, MaxSize, Debug, Clone, Copy, PartialEq)]
@@ -774,6 +871,17 @@ mod published_derive {
 pub use published_derive::{PubEnum, PubStruct};
 
 // ------------------------------------------------------------------ registry
+
+
+/// `#[repr(u8)]` says nothing about the wire: variant indices are varint(u32), so index >= 128 takes two bytes
+#[derive(Serialize, Deserialize, Schema, MaxSize, Debug, Clone, Copy, PartialEq)]
+#[repr(u8)]
+pub enum ReprU8Wide { W0,W1,W2,W3,W4,W5,W6,W7,W8,W9,W10,W11,W12,W13,W14,W15,W16,W17,W18,W19,W20,W21,W22,W23,W24,W25,W26,W27,W28,W29,W30,W31,W32,W33,W34,W35,W36,W37,W38,W39,W40,W41,W42,W43,W44,W45,W46,W47,W48,W49,W50,W51,W52,W53,W54,W55,W56,W57,W58,W59,W60,W61,W62,W63,W64,W65,W66,W67,W68,W69,W70,W71,W72,W73,W74,W75,W76,W77,W78,W79,W80,W81,W82,W83,W84,W85,W86,W87,W88,W89,W90,W91,W92,W93,W94,W95,W96,W97,W98,W99,W100,W101,W102,W103,W104,W105,W106,W107,W108,W109,W110,W111,W112,W113,W114,W115,W116,W117,W118,W119,W120,W121,W122,W123,W124,W125,W126,W127,W128,W129,W130,W131,W132,W133,W134,W135,W136,W137,W138,W139,W140,W141,W142,W143,W144,W145,W146,W147,W148,W149,W150,W151,W152,W153,W154,W155,W156,W157,W158,W159,W160,W161,W162,W163,W164,W165,W166,W167,W168,W169,W170,W171,W172,W173,W174,W175,W176,W177,W178,W179,W180,W181,W182,W183,W184,W185,W186,W187,W188,W189,W190,W191,W192,W193,W194,W195,W196,W197,W198,W199 }
+impl ReprU8Wide { pub const ALL: &'static [ReprU8Wide] = &[ReprU8Wide::W0,ReprU8Wide::W1,ReprU8Wide::W2,ReprU8Wide::W3,ReprU8Wide::W4,ReprU8Wide::W5,ReprU8Wide::W6,ReprU8Wide::W7,ReprU8Wide::W8,ReprU8Wide::W9,ReprU8Wide::W10,ReprU8Wide::W11,ReprU8Wide::W12,ReprU8Wide::W13,ReprU8Wide::W14,ReprU8Wide::W15,ReprU8Wide::W16,ReprU8Wide::W17,ReprU8Wide::W18,ReprU8Wide::W19,ReprU8Wide::W20,ReprU8Wide::W21,ReprU8Wide::W22,ReprU8Wide::W23,ReprU8Wide::W24,ReprU8Wide::W25,ReprU8Wide::W26,ReprU8Wide::W27,ReprU8Wide::W28,ReprU8Wide::W29,ReprU8Wide::W30,ReprU8Wide::W31,ReprU8Wide::W32,ReprU8Wide::W33,ReprU8Wide::W34,ReprU8Wide::W35,ReprU8Wide::W36,ReprU8Wide::W37,ReprU8Wide::W38,ReprU8Wide::W39,ReprU8Wide::W40,ReprU8Wide::W41,ReprU8Wide::W42,ReprU8Wide::W43,ReprU8Wide::W44,ReprU8Wide::W45,ReprU8Wide::W46,ReprU8Wide::W47,ReprU8Wide::W48,ReprU8Wide::W49,ReprU8Wide::W50,ReprU8Wide::W51,ReprU8Wide::W52,ReprU8Wide::W53,ReprU8Wide::W54,ReprU8Wide::W55,ReprU8Wide::W56,ReprU8Wide::W57,ReprU8Wide::W58,ReprU8Wide::W59,ReprU8Wide::W60,ReprU8Wide::W61,ReprU8Wide::W62,ReprU8Wide::W63,ReprU8Wide::W64,ReprU8Wide::W65,ReprU8Wide::W66,ReprU8Wide::W67,ReprU8Wide::W68,ReprU8Wide::W69,ReprU8Wide::W70,ReprU8Wide::W71,ReprU8Wide::W72,ReprU8Wide::W73,ReprU8Wide::W74,ReprU8Wide::W75,ReprU8Wide::W76,ReprU8Wide::W77,ReprU8Wide::W78,ReprU8Wide::W79,ReprU8Wide::W80,ReprU8Wide::W81,ReprU8Wide::W82,ReprU8Wide::W83,ReprU8Wide::W84,ReprU8Wide::W85,ReprU8Wide::W86,ReprU8Wide::W87,ReprU8Wide::W88,ReprU8Wide::W89,ReprU8Wide::W90,ReprU8Wide::W91,ReprU8Wide::W92,ReprU8Wide::W93,ReprU8Wide::W94,ReprU8Wide::W95,ReprU8Wide::W96,ReprU8Wide::W97,ReprU8Wide::W98,ReprU8Wide::W99,ReprU8Wide::W100,ReprU8Wide::W101,ReprU8Wide::W102,ReprU8Wide::W103,ReprU8Wide::W104,ReprU8Wide::W105,ReprU8Wide::W106,ReprU8Wide::W107,ReprU8Wide::W108,ReprU8Wide::W109,ReprU8Wide::W110,ReprU8Wide::W111,ReprU8Wide::W112,ReprU8Wide::W113,ReprU8Wide::W114,ReprU8Wide::W115,ReprU8Wide::W116,ReprU8Wide::W117,ReprU8Wide::W118,ReprU8Wide::W119,ReprU8Wide::W120,ReprU8Wide::W121,ReprU8Wide::W122,ReprU8Wide::W123,ReprU8Wide::W124,ReprU8Wide::W125,ReprU8Wide::W126,ReprU8Wide::W127,ReprU8Wide::W128,ReprU8Wide::W129,ReprU8Wide::W130,ReprU8Wide::W131,ReprU8Wide::W132,ReprU8Wide::W133,ReprU8Wide::W134,ReprU8Wide::W135,ReprU8Wide::W136,ReprU8Wide::W137,ReprU8Wide::W138,ReprU8Wide::W139,ReprU8Wide::W140,ReprU8Wide::W141,ReprU8Wide::W142,ReprU8Wide::W143,ReprU8Wide::W144,ReprU8Wide::W145,ReprU8Wide::W146,ReprU8Wide::W147,ReprU8Wide::W148,ReprU8Wide::W149,ReprU8Wide::W150,ReprU8Wide::W151,ReprU8Wide::W152,ReprU8Wide::W153,ReprU8Wide::W154,ReprU8Wide::W155,ReprU8Wide::W156,ReprU8Wide::W157,ReprU8Wide::W158,ReprU8Wide::W159,ReprU8Wide::W160,ReprU8Wide::W161,ReprU8Wide::W162,ReprU8Wide::W163,ReprU8Wide::W164,ReprU8Wide::W165,ReprU8Wide::W166,ReprU8Wide::W167,ReprU8Wide::W168,ReprU8Wide::W169,ReprU8Wide::W170,ReprU8Wide::W171,ReprU8Wide::W172,ReprU8Wide::W173,ReprU8Wide::W174,ReprU8Wide::W175,ReprU8Wide::W176,ReprU8Wide::W177,ReprU8Wide::W178,ReprU8Wide::W179,ReprU8Wide::W180,ReprU8Wide::W181,ReprU8Wide::W182,ReprU8Wide::W183,ReprU8Wide::W184,ReprU8Wide::W185,ReprU8Wide::W186,ReprU8Wide::W187,ReprU8Wide::W188,ReprU8Wide::W189,ReprU8Wide::W190,ReprU8Wide::W191,ReprU8Wide::W192,ReprU8Wide::W193,ReprU8Wide::W194,ReprU8Wide::W195,ReprU8Wide::W196,ReprU8Wide::W197,ReprU8Wide::W198,ReprU8Wide::W199]; }
+impl Gen for ReprU8Wide {
+    fn gen(s: &mut Src) -> Self { Self::ALL[(s.u64() as usize) % Self::ALL.len()] }
+    fn extremes() -> Vec<Self> { vec![*Self::ALL.last().unwrap(), Self::ALL[0], Self::ALL[127], Self::ALL[128]] }
+}
 
 macro_rules! full {
     // schema + maxsize(tight) + deserialize-owned + json-faithful
@@ -899,6 +1007,12 @@ pub fn types() -> Vec<CorpusType> {
     v.push(base::<heapless07::Vec<UnitS, 3>>("heapless07::Vec<UnitS,3>").schema::<heapless07::Vec<UnitS, 3>>().de::<heapless07::Vec<UnitS, 3>>());
     full!(v, WideEnum, bounded);
     full!(v, Calibration, bounded);
+    full!(v, ReprU8Wide, bounded);
+    full!(v, DiscDesc, bounded);
+    full!(v, DiscData, bounded);
+    full!(v, SharedNames, bounded);
+    full!(v, Wide8, bounded);
+    full!(v, WideVar, bounded);
     full!(v, RawVar, bounded);
     full!(v, ReprT, bounded);
     full!(v, ReprTN, bounded);
